@@ -121,8 +121,9 @@ def _cleanup_contract(ctx, qualname, table, out_cols, row_spec, spec_name, vac_n
         cond, kv, cols = box['sel']
         # the target this iteration works on is a row the query returned: some row satisfying FROM..WHERE projects onto it
         tgt = st.env.get(box['loop_var'])
-        if not isinstance(tgt, SRecord):
-            raise core.Undecided('%s: the DELETE is not inside the loop over the targets' % qualname)
+        cur = pyvc.from_z3(z3.Select(box['targets'].arr, st.env['ti']), box['et']) if 'ti' in st.env and 'targets' in box else None
+        if not isinstance(tgt, SRecord) or cur is None or sorted(tgt.fields) != sorted(cur.fields) or not all(z3.simplify(tgt.fields[f]).eq(z3.simplify(cur.fields[f])) for f in cur.fields):
+            raise core.Undecided('%s: at the DELETE the loop variable is not the current element of the query result' % qualname)
         is_result_row = [cond] + [z3.And(z3.Not(cols[nm].n), cols[nm].v == tgt.fields[nm]) for nm in cols]
         s2 = sqlst.fork()
         _bind_params(s2, list(vals))
@@ -243,7 +244,8 @@ def _fanout_obligations(eng, st, stn, tname, rows):
     anc = z3.Int(pyvc.fresh_name('anc_any'))
     subst = [(k, anc) for k in e['kvars'] if z3.is_int(k)]
     eng.ctx.add(core.decided('%s/%s/source-rows-are-identified-by-the-ancestor-alone' % (eng.label, tname), len(subst) == 1, repr(e['kvars']), kind='scan'))
-    eng.oblige(_assume_all(s1, [jgsa.has([b, grp, anc])]), '%s/every-ancestor-of-the-entrys-group-gets-a-row' % tname, z3.substitute(e['cond'], *subst) if subst else e['cond'])
+    at_anc = (lambda t: z3.substitute(t, *subst)) if subst else (lambda t: t)
+    eng.oblige(_assume_all(s1, [jgsa.has([b, grp, anc])]), '%s/every-ancestor-of-the-entrys-group-gets-a-row-of-its-own' % tname, z3.And(at_anc(e['cond']), z3.Not(at_anc(a.n)), at_anc(a.v) == anc))
     eng.oblige(_assume_all(s1, [e['cond']]), '%s/key-is-(batch, update, ancestor, inst_coll, token)' % tname,
                z3.And(*[z3.Not(key[c].n) for c in key], key['batch_id'].v == b, key['update_id'].v == u, key['inst_coll'].v == ic, key['token'].v == tok))
     want = FANOUT[tname]
@@ -256,7 +258,6 @@ def _fanout_obligations(eng, st, stn, tname, rows):
 
 
 def insert_jobs_contract(ctx):
-    seen_stmt = set()
     box = {'tables': []}
 
     def fail_alt(node, name='statement-fails'):
@@ -291,9 +292,7 @@ def insert_jobs_contract(ctx):
             st.env['n_writes_' + tname] = st.env['n_writes_' + tname] + 1
             if tname not in FANOUT:
                 raise core.Undecided('%s writes %s directly' % (eng.label, tname))
-            if (tname, id(node)) not in seen_stmt:
-                seen_stmt.add((tname, id(node)))
-                _fanout_obligations(eng, st, stn, tname, args[2] if len(args) > 2 else None)
+            _fanout_obligations(eng, st, stn, tname, args[2] if len(args) > 2 else None)
         alts = [('statement-done', None, 'value', None, None), fail_alt(node)]
         if tname == 'job_parents':
             alts.insert(1, ('duplicate-parent', None, 'raise', SExc('IntegrityError', args=(1062, z3.Const(pyvc.fresh_name('msg'), pyvc.U))), None))
